@@ -742,6 +742,41 @@ func (g *gen) genSetup() {
 			g.j.T.PutFile(p, d)
 		}
 	}
+	if g.r.Chance(0.04) {
+		g.deepChain()
+	}
+}
+
+// deepChain: a collection nested far deeper than requests ever build one in a
+// run (an unpacked archive, a mirrored source tree): 50-120 levels, rarely a
+// few hundred, short names, a file at the bottom and one on the way.
+func (g *gen) deepChain() {
+	depth := g.r.Range(50, 120)
+	if g.r.Chance(0.1) {
+		depth = g.r.Range(200, 400)
+	}
+	p := g.pickPath("missing")
+	for depthOf(p) > 2 {
+		p = model.Parent(p)
+	}
+	if g.j.T.N[p] != nil {
+		return
+	}
+	mid := g.r.Intn(depth)
+	for i := 0; i < depth; i++ {
+		g.plan.Setup = append(g.plan.Setup, SetupOp{Mkcol: p})
+		g.j.T.Mkcol(p)
+		if i == mid {
+			f := model.Join(p, "on-the-way.txt")
+			d := g.content()
+			g.plan.Setup = append(g.plan.Setup, SetupOp{Put: f, Data: d})
+			g.j.T.PutFile(f, d)
+		}
+		p = model.Join(p, rt.Pick(g.r, []string{"d", "e", "f"}))
+	}
+	d := g.content()
+	g.plan.Setup = append(g.plan.Setup, SetupOp{Put: p, Data: d})
+	g.j.T.PutFile(p, d)
 }
 
 func (g *gen) stepCount() int {
